@@ -40,12 +40,34 @@ ASSUMPTIONS = [
     "port - Pif ends with the first exhausted branch, argument order - are "
     "followed and listed in the module header)",
     "generated numbers are dyadic rationals, so model and library perform "
-    "identical exact float operations and values are compared exactly",
-    "domains the documentation leaves open are not generated: list offsets "
-    "outside 0..len-1, Pflatten of items nested deeper than n, Pconst sums "
-    "within tolerance of the target, mixed int/float wrap/clip bounds (C15)",
-    "random leaves are opaque: only reproducibility per seed, range and length "
-    "are judged"]
+    "identical exact float operations and values are compared exactly; below "
+    "wrap/mod/Pconst (mathematically specified, different but equal formulas) "
+    "no float random leaf is generated and operands finer than 2**-20 or "
+    "beyond 2**31 make the case 'no verdict' (discarded_beyond_32bit)",
+    "not generated because the documentation leaves them open (audited by "
+    "scratch runs, see proposed_fixes/ and the report): Pflatten of items "
+    "nested deeper than n (the port flattens the stream n levels, sclang the "
+    "items n levels and then spreads them - both are readings of the help "
+    "text); Pconst partial sums within tolerance of the target (an audit with "
+    "reading-independent invariants found no deviation); float / negative "
+    "repeats and lengths; empty lists (ListPattern raises ValueError by "
+    "design); pattern-valued repeats or start values (not supported by the "
+    "port's constructors); Pselect/Preject predicates that do not return bool",
+    "generated since the audit: offsets outside 0..len-1 (the starting index "
+    "wraps), negative Pstutter counts (|n|), mixed int/float wrap/clip bounds, "
+    "Placep, Plazy/Pfuncn/Pfunc/Prout with pure functions, Pwrand, single "
+    "element Pxrand/Pshuffle, non-None inval for next/all/embed, reset() "
+    "mid-way and after the end, polling after the end",
+    "no verdict (counted, not judged): unproductive expressions (model out of "
+    "fuel - e.g. Pn of an empty pattern for ever), a hang while an already "
+    "ended stream is polled again when no resuming sub-stream can be shown "
+    "(an operand pulled before the exhausted one may be unproductive from "
+    "there on: after_end_poll_unproductive_operand)",
+    "random leaves are opaque: only reproducibility per seed, range, length, "
+    "no-repeat (Pxrand), zero-weight exclusion (Pwrand) are judged; integer "
+    "Pwhite never returning its upper bound (rrand) is accepted as in range",
+    "event patterns, Pkey, Ptime, Pchain and time patterns are C14's; stream "
+    "methods collect/select/reject/++ do not exist in the port"]
 MIN_COUNTERS = {
     'quick': {'sequences_compared': 8000, 'interleaved_pairs_compared': 8000,
               'snapshots_compared': 8000, 'values_compared': 80000,
